@@ -11,6 +11,9 @@ for every comparator that is a strict weak order, every slice and every index.
 import Golib.Proof.C04SliceOps
 import Golib.Proof.C04Sim
 import Golib.Proof.C04Handles
+import Golib.Proof.C04HeapSpec
+import Golib.Proof.C04Generic
+import Golib.Proof.C04SliceSeq
 
 namespace Golib.C04
 
@@ -100,6 +103,22 @@ theorem c04_popall_sorted {cmp} (hs : SWO cmp) (s : List Int) (h : Heap cmp s) :
       xs.Pairwise (fun a b => cmp b a = false) :=
   slice_popAll hs s.length s rfl h
 
+/-- `Slice` along EVERY operation sequence (`stepS` = the model of one client call, incl.
+`s.Values[i] = v; s.Fix(i)` as `setFix`): starting from `FromSlice` of any slice (or from any
+heap-ordered `Values`), no call panics, `Values` is heap-ordered after every call and every call
+did to the multiset what `SPost` says (`Push` adds `x`; `Pop`/`Peek` return `(zero,false)` iff empty
+and otherwise an element no element precedes, `Pop` removing exactly it; `Remove(i)` out of range is
+a no-op returning `(zero,false)`, in range it returns and removes exactly `Values[i]`; `Fix` keeps
+the multiset; `PopAll` yields everything once, sorted). The only client obligation (`sPre`): the
+assignment `Values[i] = v` is inside the slice. -/
+theorem c04_slice_sequences {cmp} (hs : SWO cmp) :
+    (∀ (v : List Int) (ops : List SOp), ∃ s, Slice.fromSlice cmp v = some s ∧ s.Perm v ∧
+      SliceSteps cmp ops s) ∧
+    (∀ (ops : List SOp) (s : List Int), Heap cmp s → SliceSteps cmp ops s) := by
+  refine ⟨fun v ops => ?_, fun ops s h => slice_steps hs ops s h⟩
+  obtain ⟨s, h1, h2, h3⟩ := slice_fromSlice hs v
+  exact ⟨s, h1, h3, slice_steps hs ops s h2⟩
+
 /-- The sift routines are parametric in the container: for ANY `Interface` implementation whose
 `Less`/`Swap` agree with those of a slice holding the same data (same answers, same panics — the
 interface laws), the generic `std_up`/`std_down`/`Fix`/`Init` loops behave on the data exactly
@@ -113,20 +132,41 @@ theorem c04_generic_sim {σ : Type} (o : Ops σ) (abs : σ → List Int) (cmp : 
   ⟨up_sim laws _ a (abs a) i rfl, downB_sim laws a (abs a) i n rfl, fix_sim laws a (abs a) i n rfl,
    build_sim laws a (abs a) n rfl⟩
 
-/-- The generic `Init`, `Push`, `Fix` on the recording container of the harness (a lawful
-`Interface`): heap order established / kept / restored, multiset kept, no panic.
-Partial: the same for the generic `Pop(h)` and `Remove(h, i)` (return the minimum / element `i`,
-heap order kept) is not proved yet for the container (it is for `Slice`, whose code is the same
-sequence of calls); both are checked on every run call by call (`Less`/`Swap` log) against the
-model and by the multiset oracle. -/
-theorem c04_generic_partial {cmp} (hs : SWO cmp) (r : Rec) :
-    (∃ r', Gen.init cmp r = some r' ∧ Heap cmp r'.data ∧ r'.data.Perm r.data) ∧
-    (Heap cmp r.data → ∀ x, ∃ r', Gen.push cmp r x = some r' ∧ Heap cmp r'.data ∧
-      r'.data.Perm (x :: r.data)) ∧
-    (Heap cmp r.data → ∀ (i : Nat) (v : Int), i < r.data.length →
-      ∃ r', Gen.fix cmp { r with data := r.data.set i v } (i : Int) = some r' ∧ Heap cmp r'.data ∧
-        r'.data.Perm (r.data.set i v)) :=
-  ⟨gen_init hs r, fun h x => gen_push hs r x h, fun h i v hi => gen_fix hs r i v h hi⟩
+/-- The generic `Init`, `Push`, `Pop`, `Remove`, `Fix` of `std_heap.go` (`GenI.*`) on ANY lawful
+`Interface` implementation — `Lawful I abs cmp`: relative to the abstraction `abs : σ → List Int`
+of the caller's container, `Less`/`Swap` answer and panic as those of a slice holding the same
+data, `Len` is the length, `Push` appends, `Pop` removes and returns the last element:
+`Init` establishes the heap order; `Push`, `Pop` (on a non-empty container), `Remove(i)` (any
+index in range) and `Fix(i)` (after an arbitrary change of element `i`) keep / restore it, none
+panics, `Push` adds exactly `x`, `Pop` removes exactly one element that no element precedes,
+`Remove(i)` returns and removes exactly element `i`, `Fix` keeps the multiset.
+The recording container of the harness is lawful, so all of this holds for `Gen.*`, the functions
+the oracle runs (`Gen.x cmp = GenI.x (recIface cmp)` by definition). -/
+theorem c04_generic {cmp} (hs : SWO cmp) :
+    (∀ {σ : Type} (I : Iface σ) (abs : σ → List Int), Lawful I abs cmp → ∀ a : σ,
+      (∃ a', GenI.init I a = some a' ∧ Heap cmp (abs a') ∧ (abs a').Perm (abs a)) ∧
+      (Heap cmp (abs a) → ∀ x, ∃ a', GenI.push I a x = some a' ∧ Heap cmp (abs a') ∧
+        (abs a').Perm (x :: abs a)) ∧
+      (Heap cmp (abs a) → abs a ≠ [] → ∃ a' x, GenI.pop I a = some (a', x) ∧ Heap cmp (abs a') ∧
+        (x :: abs a').Perm (abs a) ∧ ∀ y, y ∈ abs a → cmp y x = false) ∧
+      (Heap cmp (abs a) → ∀ k : Nat, k < (abs a).length →
+        ∃ a', GenI.remove I a (k : Int) = some (a', nthN (abs a) k) ∧ Heap cmp (abs a') ∧
+          (nthN (abs a) k :: abs a').Perm (abs a)) ∧
+      (∀ (s0 : List Int) (i : Nat) (v : Int), Heap cmp s0 → i < s0.length → abs a = s0.set i v →
+        ∃ a', GenI.fix I a (i : Int) = some a' ∧ Heap cmp (abs a') ∧ (abs a').Perm (abs a))) ∧
+    Lawful (recIface cmp) (fun r => r.data) cmp :=
+  ⟨fun I abs L a => ⟨genI_init hs L a, fun h x => genI_push hs L a x h, fun h hne => genI_pop hs L a h hne,
+    fun h k hk => genI_remove hs L a h k hk, fun s0 i v h hi ha => genI_fix hs L a s0 i v h hi ha⟩,
+   rec_lawful cmp⟩
+
+/-- Non-vacuity of `Lawful` beyond the recording container: the plain slice itself (`abs = id`,
+no log) is a lawful `Interface`. -/
+example (cmp : Int → Int → Bool) :
+    Lawful (σ := List Int) ⟨sliceOps cmp, fun s => s.length, fun s x => s ++ [x], sliceLast⟩ id cmp := by
+  refine ⟨⟨fun a b j i hab => ?_, fun a b i j hab => ?_⟩, fun _ => rfl, fun _ _ => rfl, fun a => ?_⟩
+  · cases hab; exact relO_refl _ _ (fun _ => ⟨rfl, rfl⟩)
+  · cases hab; exact relO_refl _ _ (fun _ => rfl)
+  · exact relO_refl _ _ (fun _ => ⟨rfl, rfl⟩)
 
 /-- `Heap` with handles: if the cached `index` of every element of `h.values` equals its real
 position (`IdxInv`), it still does after `swapEle` and therefore after every `up`, `down`, `fix`
@@ -140,18 +180,87 @@ theorem c04_heap_index_inv {cmp} {m : HMem} {h : Nat} (hI : IdxInv m h) :
   ⟨fun i j m' e => swapEle_idxInv hI e, (heap_sift_idxInv hI).1, (heap_sift_idxInv hI).2.1,
    (heap_sift_idxInv hI).2.2.1, (heap_sift_idxInv hI).2.2.2⟩
 
-/-- Handles: a stale handle (`e.heap == nil`: popped, removed, or discarded by the repaired
-`Init`) and a handle of another heap are ignored by `Remove` and `Fix` (state unchanged); the
-element leaving through `h.pop()` reports `Index() == -1` and loses its owner.
-Partial: that `Remove(e)` for a live `e` removes exactly `e` and that `Push/Pop/Remove/Fix` keep
-the heap order on `Heap` follows from `c04_heap_index_inv` + the `Slice` theorems through the
-simulation `c04_generic_sim` (same values, consistent indices) but is not assembled yet; it is
-checked on every run (Index() of every live and dead handle after every call, sort-free
-multiset oracle). -/
-theorem c04_heap_handles_partial (cmp : Int → Int → Bool) (m : HMem) (h e : Nat) :
-    (m.own.get e ≠ some h → m.remove cmp h e = some m ∧ m.fixElem cmp h e = some m) ∧
-    (∀ m' x, m.popLast h = some (m', x) → m'.idx.get x = -1 ∧ m'.own.get x = none) :=
-  ⟨heap_handles_ignored cmp m h e, fun m' x hp => popLast_left m m' h x hp⟩
+/-- `Heap[T]` with `*Element[T]` handles is a priority queue over a multiset of handles, along
+EVERY operation sequence.  The client-visible calls are `HOp` (`Init` incl. re-`Init` with the
+repaired detaching, `Push`, `PushElement`, `Pop`, `Peek`, `Len`, `Remove(e)`, `Fix(e)`,
+`e.Value = v; Fix(e)`, `PopAll`, each on one of two heaps sharing one memory of elements);
+`stepH` runs the model of the Go code.  The specification (`Proof/C04HeapSpec.lean`) keeps, per
+heap, the list of LIVE handles and a value per handle:
+`Push`/`PushElement` add the handle, `Pop`/`Peek` return nil iff nothing is live and otherwise a
+live handle that no live handle precedes (`IsMin`; `Pop` erases it), `Len` is the number of live
+handles, `Remove(e)` erases exactly `e` (the identity for stale and foreign handles), `Fix` changes
+nothing but the value, `Init` makes the fresh handles of the given values the live ones (the old
+ones are dropped), `PopAll` returns the values of the live handles, each once, sorted, and
+leaves none.  Client obligations (`specPre`): `PushElement(e)` is called with an allocated
+element that is in no heap; a value changed by `setFix h e v` does not belong to the OTHER heap.
+
+(1) `Refines`: from the empty memory (and from any related pair), as long as the client meets
+    `specPre`, no call panics, every result is one the spec allows, and `Rel` holds again —
+    for every op list.
+(2) What `Rel` means for the memory: `h.values` is heap-ordered (same predicate `Heap` as for
+    `Slice`, on the values), has no duplicates and holds exactly the live handles;
+    `Index()` of the element at position `k` is `k` and its owner is `h`; an element owned by `h`
+    is live in `h`.
+(3) Every allocated element that is live nowhere (popped, removed, discarded by `Init`) reports
+    `Index() == -1` and has no owner.
+(4) Stale and foreign handles leave the WHOLE memory unchanged (not just the spec state); the
+    element leaving through `h.pop()` reports `-1` and loses its owner (for any memory).
+(5) One call on a memory satisfying the invariant: `Remove(e)` of a live `e` removes exactly `e`
+    (`Removed`: `e :: values' ~ values`, invariant, `e` detached, other heap, values, allocation
+    untouched); `Fix(e)` after ANY change of the value table at `e` restores the invariant with the
+    same elements; `Pop` on a non-empty heap returns the root, which no element precedes. -/
+theorem c04_heap_handles {cmp} (hs : SWO cmp) :
+    ((∀ ops, Refines cmp ops HMem.zero HSpec.zero) ∧
+     (∀ ops m s, Rel cmp m s → Refines cmp ops m s)) ∧
+    (∀ m s, Rel cmp m s → ∀ h : Fin 2,
+      Heap cmp ((m.arr h.val).map m.val.get) ∧ (m.arr h.val).Nodup ∧ (m.arr h.val).Perm (s.live h) ∧
+      (∀ (k e : Nat), (m.arr h.val)[k]? = some e → m.idx.get e = (k : Int) ∧ m.own.get e = some h.val) ∧
+      (∀ e, m.own.get e = some h.val → e ∈ s.live h)) ∧
+    (∀ m s, Rel cmp m s → ∀ e, e < s.fresh → (∀ h, e ∉ s.live h) →
+      m.idx.get e = -1 ∧ m.own.get e = none) ∧
+    ((∀ m s, Rel cmp m s → ∀ (h : Fin 2) e, e ∉ s.live h →
+        m.remove cmp h.val e = some m ∧ m.fixElem cmp h.val e = some m) ∧
+     (∀ (m : HMem) (h e : Nat), m.own.get e ≠ some h →
+        m.remove cmp h e = some m ∧ m.fixElem cmp h e = some m) ∧
+     (∀ (m m' : HMem) (h x : Nat), m.popLast h = some (m', x) →
+        m'.idx.get x = -1 ∧ m'.own.get x = none)) ∧
+    (∀ m, MemOK cmp m → ∀ h, h < 2 →
+      (∀ e, m.own.get e = some h → ∃ m', m.remove cmp h e = some m' ∧ Removed cmp m m' h e) ∧
+      (∀ e (val' : Golib.C13.IM), m.own.get e = some h → (∀ x, x ≠ e → val'.get x = m.val.get x) →
+        ∃ m', ({ m with val := val' } : HMem).fixElem cmp h e = some m' ∧ MemOK cmp m' ∧
+          (m'.arr h).Perm (m.arr h) ∧ m'.arr (oth h) = m.arr (oth h) ∧ m'.val = val' ∧
+          m'.fresh = m.fresh) ∧
+      (m.arr h ≠ [] → ∃ m', m.pop cmp h = some (m', some (elemAt m h 0)) ∧
+        Removed cmp m m' h (elemAt m h 0) ∧
+        ∀ y, y ∈ m.arr h → cmp (m.val.get y) (m.val.get (elemAt m h 0)) = false)) := by
+  refine ⟨⟨fun ops => refines_all hs ops _ _ (rel_zero cmp), fun ops m s R => refines_all hs ops m s R⟩,
+    ?_, ?_, ⟨?_, fun m h e => heap_handles_ignored cmp m h e, fun m m' h x hp => popLast_left m m' h x hp⟩, ?_⟩
+  · intro m s R h
+    have hI := R.ok.core.idx h.val h.isLt
+    refine ⟨R.ok.ord h.val h.isLt, hI.nodup, R.live h, ?_, fun e he => (mem_live_iff R h e).2 he⟩
+    intro k e hk
+    exact ⟨hI.index k e hk, (R.ok.core.own e h.val h.isLt).2 (List.mem_of_getElem? hk)⟩
+  · intro m s R e hf hd
+    have ho := own_none_of_dead R hd
+    exact ⟨R.ok.left e trivial (by rw [R.fresh]; exact hf) ho, ho⟩
+  · intro m s R h e he
+    exact heap_handles_ignored cmp m h.val e (fun ho => he ((mem_live_iff R h e).2 ho))
+  · intro m hok h hh
+    refine ⟨fun e ho => remove_spec hs hh hok ho, fun e val' ho hv => fixElem_spec hs hh hok hv ho, ?_⟩
+    intro hne
+    obtain ⟨m', hrun, hrm⟩ := (pop_spec hs hh hok).2 hne
+    exact ⟨m', hrun, hrm, heapOrd_root_min hs (hok.ord h hh)⟩
+
+/-- Non-vacuity of `specPre`: after `Push(7)` on heap A returned handle 0 and `Pop` returned it,
+handle 0 is allocated and live nowhere, so `B.PushElement(0)` is a call the client may make; and
+`setFix A 0 9` is allowed while 0 lives in A. -/
+example : specPre (specStep (specStep HSpec.zero (.push 0 7) (.handle (some 0))) (.pop 0) (.handle (some 0)))
+    (.pushElem 1 0) := by
+  refine ⟨by decide, ?_⟩
+  intro h'; simp [specStep, HSpec.setLive, HSpec.zero]
+
+example : specPre (specStep HSpec.zero (.push 0 7) (.handle (some 0))) (.setFix 0 0 9) := by
+  intro h' hne; simp [specStep, HSpec.setLive, HSpec.zero, hne]
 
 /-- Non-vacuity: `<` on keys with ties (the harness's `key` comparator shape) is a strict weak
 order, and a concrete slice with ties is a heap for it. -/
